@@ -19,6 +19,7 @@ import (
 	"io"
 	"os"
 	"runtime"
+	"strings"
 	"sync"
 	"testing"
 	"time"
@@ -266,5 +267,34 @@ func TestBoundedC12(t *testing.T) {
 		}
 	}
 	wg.Wait()
+	// headers around the size limit: the verdict on a stream (valid or not) is the same however it is cut into reads
+	for _, zeros := range []int{0, 100, 900, 1000, 1005, 1006, 1007, 1008, 1009, 1010, 1020, 1024, 1025, 1100, 3000} {
+		payload := []byte("ab")
+		stream := bSigned([][]byte{payload}, "", payload)
+		stream = append([]byte(strings.Repeat("0", zeros)), stream...)
+		verdict := func(fr []int, bs int) string {
+			r, err := NewSignedChunkReader(&fragReader{data: stream, sizes: fr}, AuthData{Signature: bSeed}, bRegion, bSecret, bDate, "", false)
+			if err != nil {
+				return "constructor error"
+			}
+			got, err := readAllBuf(r, bs)
+			if err != nil {
+				return "refused"
+			}
+			return "accepted " + string(got)
+		}
+		whole := verdict([]int{len(stream)}, 8192)
+		for _, fr := range [][]int{{1}, {7}, {512}, {1000}, {1023}, {1024}, {1025}, {zeros + 1, len(stream)}, {zeros + 90, len(stream)}} {
+			for _, bs := range []int{1, 100, 8192} {
+				cases++
+				if fr[0] < 1 {
+					continue
+				}
+				if v := verdict(fr, bs); v != whole {
+					report("signed, size field with %d leading zeros: %s in one read with an 8192 byte buffer, %s with fragments %v and a %d byte buffer", zeros, whole, v, fr, bs)
+				}
+			}
+		}
+	}
 	fmt.Printf("GOVC-BOUNDED: cases=%d failures=%d maxlen=%d\n", cases, failures, maxLen)
 }
